@@ -316,6 +316,8 @@ class GeoStoreMachine(StoreMachine):
                     on = True
             return out
         def near(a, b):
+            if a is None or a != a:
+                return False          # blank or unreadable field in the file
             return abs(a - b) <= 0.005 * 1.02 + 1e-9 * max(1.0, abs(b))
         vs = section('VERTI')
         if len(vs) != len(want['nodes']):
